@@ -161,3 +161,75 @@ func VH_C03_Process(shape int) {
 	_ = err
 	vAssert(len(out.b) >= 0, "process returned")
 }
+
+// vhStaged delivers data[:cut], then blocks (the observation point of C11:
+// what has been written by then is recorded), then delivers the rest.
+type vhStaged struct {
+	data       []byte
+	pos, cut   int
+	out        *vhBuf
+	stalled    bool
+	outAtStall int
+}
+
+func (f *vhStaged) Read(p []byte) (int, error) {
+	if f.pos == f.cut && !f.stalled {
+		// nothing more is available: a real Read would block here
+		f.stalled = true
+		f.outAtStall = len(f.out.b)
+	}
+	if f.pos == len(f.data) {
+		return 0, io.EOF
+	}
+	end := len(f.data)
+	if f.pos < f.cut {
+		end = f.cut
+	}
+	n := copy(p, f.data[f.pos:end])
+	f.pos += n
+	return n, nil
+}
+
+// VH_C11_Process: the command loop as a live filter: text, a dump, three more
+// text lines; the producer delivers everything up to a line boundary and
+// blocks. At that moment the output already holds every complete pass-through
+// line delivered so far, and the rendering of the dump once the line that ends
+// it has been delivered. cut: 0 = blocks before the dump, 1 = after the line
+// that ends the dump, 2 = one line later, 3 = two lines later.
+//
+// Run at the real reader buffer size (what is pushed back after a dump is
+// smaller than the buffer, as in the command).
+//
+//verif:prop C11
+//verif:realsize
+//verif:param cut 0..3
+//verif:param n 1..2
+func VH_C11_Process(cut, n int) {
+	var in []byte
+	exp := &vhBuf{}
+	marks := []int{}    // input offsets of the blocking points
+	expAt := []int{}    // expected output length at each
+	text := func(tag string) {
+		t := vhTextLine(tag)
+		in = append(in, t...)
+		exp.b = append(exp.b, t...)
+	}
+	text("t0")
+	marks, expAt = append(marks, len(in)), append(expAt, len(exp.b))
+	d := vhDump("d0", n)
+	in = append(in, d...)
+	vhRender(d, exp)
+	for _, tag := range []string{"t1", "t2", "t3"} {
+		text(tag)
+		marks, expAt = append(marks, len(in)), append(expAt, len(exp.b))
+	}
+	text("t4")
+	out := &vhBuf{}
+	f := &vhStaged{data: in, cut: marks[cut], out: out}
+	err := process(f, out, &Palette{}, stack.AnyPointer, basePath, false, false, "", nil, nil)
+	vReach("stream processed through a blocking producer")
+	vAssert(err == nil, "process returns nil at the end of the input")
+	vAssert(f.stalled, "the producer's blocking point was reached")
+	vAssert(f.outAtStall == expAt[cut], "when the producer blocks, every complete line delivered so far (and the finished dump) has been written")
+	vAssert(len(out.b) == len(exp.b), "the whole output is produced in the end")
+}
